@@ -1,94 +1,85 @@
 #!/venv/bin/python
-"""C18 correspondence: Lean model (Pog/Model/Stream.lean, via .lake/build/bin/driver) versus the REAL code:
-   pyopenapi_gen.core.streaming_helpers.{iter_sse, iter_sse_events_text, iter_ndjson} running on a real
-   httpx.Response whose body is an AsyncByteStream yielding the chosen byte chunks, httpx's LineDecoder,
-   Response.aiter_lines, codecs' incremental UTF-8 decoder, str.splitlines and str.strip/lstrip.
-   Must end with `0 disagreements`."""
+"""C18 — "stream decoders are independent of how the bytes are chunked".
+
+Importable correspondence/oracle module (no work and no `pyopenapi_gen` import at import time).
+
+  run(seed, scale, driver)  Lean model (Pog/Model/Stream.lean through the compiled driver) versus the REAL code:
+                            pyopenapi_gen.core.streaming_helpers.{iter_sse, iter_sse_events_text, iter_ndjson} and
+                            Response.aiter_lines on a real httpx.Response whose body is an AsyncByteStream yielding the
+                            chosen byte chunks; httpx's LineDecoder; codecs' incremental UTF-8 decoder; str.splitlines;
+                            str.strip/lstrip; _parse_sse_event.
+  oracle(seed, scale)       the property itself on the real helpers, no Lean: chunked == unsplit ("chunking-dependent")
+                            and unsplit == a tiny independent reference ("sse-spec").
+  replay(case)              re-run one oracle case ({"chunks_hex": [...]}); True iff it still violates the property.
+
+`python corr_c18.py [driver]` prints the summary, `N disagreements` and the oracle's failure counts per class.
+"""
 import asyncio
 import codecs
-import itertools
 import json
 import os
 import random
 import subprocess
 import sys
+import time
 
-import httpx
-from httpx._decoders import LineDecoder
+DEFAULT_DRIVER = os.environ.get("POG_DRIVER", "/verif/lean/.lake/build/bin/driver")
 
-from pyopenapi_gen.core import streaming_helpers as sh
-
-HERE = os.path.dirname(os.path.abspath(__file__))
-DRIVER = os.path.join(HERE, ".lake", "build", "bin", "driver")
-rng = random.Random(1818)
-
-# ---------------------------------------------------------------- driver (batch)
-cases = []  # (label, request, expected)
-
-
-def want(label, f, args, expected):
-    cases.append((label, {"f": f, "a": args}, expected))
-
-
-# ---------------------------------------------------------------- real code runners
-class ChunkStream(httpx.AsyncByteStream):
-    def __init__(self, chunks):
-        self.chunks = chunks
-
-    async def __aiter__(self):
-        for c in self.chunks:
-            yield c
+# ---------------------------------------------------------------- fixed material (no randomness here)
+TERMS = ["\n", "\r", "\r\n", "\x0b", "\x0c", "\x1c", "\x1d", "\x1e", "\x85", "\u2028", "\u2029"]
+SSE_TOK = ["data", "data:", "data: ", "event:", "event: ", "id:", "id: ", "retry:", "retry: 5", ":", ": c", " ", "\t", "x", "yz",
+           "é", "漢", "\u2028", "\x85", "\xa0", "\u3000", "\U0001F600", "\n", "\n", "\n\n", "\r", "\r\n", "\r\n\r\n", "\r\r",
+           "foo", "data:a", "data:  b ", "datax:1", "Data:1"]
+ND_TOK = ['{"a": 1}', '[1, 2]', '"é漢"', "3", "null", '{"k": "v w"}', " ", "\t", "\xa0", "\n", "\r\n", "\r", "\n\n", "\u2028",
+          "\x85", '"\U0001F600"', "{bad", "\u3000"]
+# hand-picked short streams (every one is kept at every scale)
+SHORT = ["data: é\r\n\r\n", "data:a\n\ndata:b", ":c\ndata:x\r\r", "a\r\nb", "\r\n\r\n", "d\u2028\n", "data:\n\n", "data\n\n",
+         "id:1\nid:2\n\n", "\r", "\n", "\r\r\n", "漢\r\n\x85é", "data: \u2028x", "x:\xa0 y\r\n", "event:e\rid:", "{\"a\":1}\r\n[2]",
+         " 3 \r\n\t4", "\u2028\u2029", "é", "a\x1c\rb\x0b", "data:1\r\n\r", "\n\r\n\r", "", "data: a\ndata", ": \n\n:\n",
+         "😀\r\n😀", "a\r", "ab\rc", "\r\nx"]
+# hand-picked longer streams (random chunkings)
+LONG = ["event: add\r\ndata: {\"k\": \"é\"}\r\nid: 1\r\n\r\n: keep-alive\r\n\r\ndata: line1\r\ndata: line2\r\n\r\ndata: tail",
+        "data:漢字\n\ndata: \n\nretry: 10\ndata: r\n\n",
+        "{\"a\": 1}\r\n\r\n  [1, 2]  \r\n\"😀\"\n3",
+        ":only a comment\n\nnocolon\n\ndata: x\rdata: y\r\r",
+        "data: a\u2028b\n\ndata: c\x85d\n\n"]
+ERR = "<<json error>>"
 
 
-def resp(chunks):
-    return httpx.Response(200, stream=ChunkStream(list(chunks)))
+def _cap(b: bytes, n: int = 12) -> bytes:
+    return b if len(b) <= n else b[:n].decode("utf-8", errors="ignore").encode("utf-8")
 
 
-def ev(e):
-    return {"data": e.data, "event": e.event, "id": e.id}
+def _rand_text(rng, tokens, n):
+    return "".join(rng.choice(tokens) for _ in range(n))
 
 
-async def real_all(chunks):
-    lines = [l async for l in resp(chunks).aiter_lines()]
-    sse = [ev(e) async for e in sh.iter_sse(resp(chunks))]
-    txt = [t async for t in sh.iter_sse_events_text(resp(chunks))]
-    nd = []
-    try:
-        async for item in sh.iter_ndjson(resp(chunks)):
-            nd.append(item)
-    except ValueError:
-        nd.append("<<json error>>")
-    return lines, sse, txt, nd
-
-
-def model_ndjson_view(model_lines):
-    """What iter_ndjson would yield from the model's stripped non-empty lines."""
-    out = []
-    for l in model_lines:
-        try:
-            out.append(json.loads(l))
-        except ValueError:
-            out.append("<<json error>>")
-            break
-    return out
-
-
-def text_chunks(chunks):
-    dec = codecs.getincrementaldecoder("utf-8")(errors="replace")
-    texts = [dec.decode(c) for c in chunks]
-    pending = dec.getstate()[0]
-    return texts, list(pending)
-
-
-def all_chunkings(b):
+def _chunking_of_mask(b: bytes, mask: int):
     n = len(b)
-    for mask in range(1 << max(n - 1, 0)):
-        cuts = [i + 1 for i in range(n - 1) if mask >> i & 1]
-        pts = [0] + cuts + [n]
-        yield [b[pts[i]:pts[i + 1]] for i in range(len(pts) - 1)]
+    cuts = [i + 1 for i in range(n - 1) if mask >> i & 1]
+    pts = [0] + cuts + [n]
+    return [b[pts[i]:pts[i + 1]] for i in range(len(pts) - 1)]
 
 
-def random_chunking(b):
+def _all_chunkings(b: bytes):
+    for mask in range(1 << max(len(b) - 1, 0)):
+        yield _chunking_of_mask(b, mask)
+
+
+def _sampled_chunkings(rng, b: bytes, k: int):
+    """All chunkings when there are at most k, else k distinct seeded ones (always incl. unsplit and byte-by-byte)."""
+    total = 1 << max(len(b) - 1, 0)
+    if total <= k:
+        yield from _all_chunkings(b)
+        return
+    masks = {0, total - 1}
+    while len(masks) < k:
+        masks.add(rng.randrange(total))
+    for m in sorted(masks):
+        yield _chunking_of_mask(b, m)
+
+
+def _random_chunking(rng, b: bytes):
     n = len(b)
     k = rng.choice([0, 1, 2, 3, 5, 8, n])
     cuts = sorted(rng.randrange(0, n + 1) for _ in range(k)) if n else []
@@ -99,82 +90,177 @@ def random_chunking(b):
     return ch
 
 
-ndjson_pending = []  # (label, chunks-as-lists, real ndjson view) resolved after the driver run
+def _features(b: bytes, chunks) -> set:
+    """Which kinds of interesting split points the chunking has (split points strictly inside the stream)."""
+    f = set()
+    pos = 0
+    for c in chunks[:-1]:
+        pos += len(c)
+        if not 0 < pos < len(b):
+            continue
+        if b[pos] & 0xC0 == 0x80:
+            f.add("split_in_multibyte")
+        if b[pos - 1] == 13 and b[pos] == 10:
+            f.add("split_in_crlf")
+        ls = b[:pos].decode("utf-8", errors="ignore").splitlines()
+        if ls and ls[-1] != "":  # the prefix ends inside a block of non-empty lines: the event is still open
+            f.add("split_in_event")
+    return f
 
 
-async def stream_case(label, chunks):
-    lines, sse, txt, nd = await real_all(chunks)
-    bl = [list(c) for c in chunks]
-    want(label + "/aiter_lines", "linesOfBytes", [bl], lines)
-    want(label + "/iter_sse", "sseOfBytes", [bl], sse)
-    want(label + "/iter_sse_events_text", "sseTextOfBytes", [bl], txt)
-    ndjson_pending.append((len(cases), label, nd))
-    want(label + "/iter_ndjson(lines)", "ndjsonOfBytes", [bl], None)  # expectation filled below
-    # text level entry points, fed with the text chunks the real incremental decoder produces
-    texts, pending = text_chunks(chunks)
-    want(label + "/utf8Chunks", "utf8Chunks", [bl], {"texts": texts, "pending": pending})
-    want(label + "/linesOf", "linesOf", [texts], lines)
-    want(label + "/iterSSE", "iterSSE", [lines], sse)
-    want(label + "/sseEventsText", "sseEventsText", [texts], txt)
+# ---------------------------------------------------------------- real code (imports deferred)
+_real = {}
 
 
-# ---------------------------------------------------------------- inputs
-TERMS = ["\n", "\r", "\r\n", "\x0b", "\x0c", "\x1c", "\x1d", "\x1e", "\x85", "\u2028", "\u2029"]
-SSE_TOK = ["data", "data:", "data: ", "event:", "event: ", "id:", "id: ", "retry:", "retry: 5", ":", ": c", " ", "\t", "x", "yz",
-           "é", "漢", "\u2028", "\x85", "\xa0", "\u3000", "\U0001F600", "\n", "\n", "\n\n", "\r", "\r\n", "\r\n\r\n", "\r\r",
-           "foo", "data:a", "data:  b ", "datax:1", "Data:1"]
-ND_TOK = ['{"a": 1}', '[1, 2]', '"é漢"', "3", "null", '{"k": "v w"}', " ", "\t", "\xa0", "\n", "\r\n", "\r", "\n\n", "\u2028",
-          "\x85", '"\U0001F600"', "{bad", "\u3000"]
+def _impl():
+    if not _real:
+        import httpx
+        from httpx._decoders import LineDecoder
+        from pyopenapi_gen.core import streaming_helpers as sh
 
-SHORT = ["data: é\r\n\r\n", "data:a\n\ndata:b", ":c\ndata:x\r\r", "a\r\nb", "\r\n\r\n", "d\u2028\n", "data:\n\n", "data\n\n",
-         "id:1\nid:2\n\n", "\r", "\n", "\r\r\n", "漢\r\n\x85é", "data: \u2028x", "x:\xa0 y\r\n", "event:e\rid:", "{\"a\":1}\r\n[2]",
-         " 3 \r\n\t4", "\u2028\u2029", "é", "a\x1c\rb\x0b", "data:1\r\n\r", "\n\r\n\r", "", "data: a\ndata", ": \n\n:\n",
-         "😀\r\n😀", "a\r", "ab\rc", "\r\nx"]
+        class ChunkStream(httpx.AsyncByteStream):
+            def __init__(self, chunks):
+                self.chunks = chunks
+
+            async def __aiter__(self):
+                for c in self.chunks:
+                    yield c
+
+        def resp(chunks):
+            return httpx.Response(200, stream=ChunkStream(list(chunks)))
+
+        _real.update(httpx=httpx, LineDecoder=LineDecoder, sh=sh, resp=resp)
+    return _real
 
 
-def rand_text(tokens, n):
-    return "".join(rng.choice(tokens) for _ in range(n))
+def _ev(e, retry=False):
+    d = {"data": e.data, "event": e.event, "id": e.id}
+    if retry:
+        d["retry"] = e.retry
+    return d
 
 
-async def main():
+async def _real_all(chunks, retry=False, with_bytes=False):
+    R = _impl()
+    sh, resp = R["sh"], R["resp"]
+    out = {}
+    out["sse"] = [_ev(e, retry) async for e in sh.iter_sse(resp(chunks))]
+    out["text"] = [t async for t in sh.iter_sse_events_text(resp(chunks))]
+    nd = []
+    try:
+        async for item in sh.iter_ndjson(resp(chunks)):
+            nd.append(item)
+    except ValueError:
+        nd.append(ERR)
+    out["ndjson"] = nd
+    if with_bytes:
+        out["bytes_hex"] = b"".join([c async for c in sh.iter_bytes(resp(chunks))]).hex()
+    else:
+        out["lines"] = [l async for l in resp(chunks).aiter_lines()]
+    return out
+
+
+def _ndjson_view(model_lines):
+    """What iter_ndjson yields from the model's stripped non-empty lines (json.loads is not modelled)."""
+    if not isinstance(model_lines, list):
+        return model_lines
+    out = []
+    for l in model_lines:
+        try:
+            out.append(json.loads(l))
+        except ValueError:
+            out.append(ERR)
+            break
+    return out
+
+
+def _text_chunks(chunks):
+    dec = codecs.getincrementaldecoder("utf-8")(errors="replace")
+    texts = [dec.decode(c) for c in chunks]
+    return texts, list(dec.getstate()[0])
+
+
+# ---------------------------------------------------------------- driver (batched; the driver answers at EOF)
+def _drive(driver: str, reqs, batch: int = 50000):
+    replies = []
+    for i in range(0, len(reqs), batch):
+        part = reqs[i:i + batch]
+        inp = "".join(json.dumps(r, ensure_ascii=True) + "\n" for r in part)
+        out = subprocess.run([driver], input=inp.encode(), stdout=subprocess.PIPE, check=True).stdout.decode("utf-8")
+        lines = out.split("\n")  # replies may contain raw U+2028/U+0085 inside strings: split on "\n" only
+        if lines and lines[-1] == "":
+            lines.pop()
+        if len(lines) != len(part):
+            raise RuntimeError(f"driver returned {len(lines)} replies for {len(part)} requests")
+        replies.extend(json.loads(l) for l in lines)
+    return replies
+
+
+# ---------------------------------------------------------------- run
+def run(seed: int, scale: float, driver: str) -> dict:
+    return asyncio.run(_run(seed, scale, driver))
+
+
+async def _run(seed, scale, driver):
+    R = _impl()
+    LineDecoder, sh = R["LineDecoder"], R["sh"]
+    rng = random.Random(seed)
+    cases = []  # (label, request, expected, post)  post: None | "ndjson"
+
+    def want(label, f, args, expected, post=None):
+        cases.append((label, {"f": f, "a": args}, expected, post))
+
+    def N(base):
+        return max(1, int(round(base * scale)))
+
+    dist = {}
+
+    def count(k, n=1):
+        dist[k] = dist.get(k, 0) + n
+
     # 1. str.splitlines vs splitLines
     alpha = TERMS + ["a", "b", "", "é", " ", ":", "\x1f", "\x1b", "\x84", "\u2027", "\u202a", "\t"]
-    for i in range(1500):
-        s = rand_text(alpha, rng.randrange(0, 14))
+    for _ in range(N(150)):
+        s = _rand_text(rng, alpha, rng.randrange(0, 14))
         want("splitlines", "splitLines", [s], s.splitlines())
-    for t in TERMS:  # every pair / triple of terminators
+    for t in TERMS:  # every pair of terminators
         for u in TERMS:
             want("splitlines2", "splitLines", [t + u], (t + u).splitlines())
             want("splitlines2", "splitLines", ["a" + t + u + "b"], ("a" + t + u + "b").splitlines())
-    # every BMP code point as a potential line break
-    for cp in itertools.chain(range(0, 0xD800), range(0xE000, 0x10000), [0x10000, 0x1F600, 0x10FFFF]):
+    valid_cp = [cp for cp in range(0x110000) if not 0xD800 <= cp < 0xE000]
+    special_break = [cp for cp in valid_cp if len(("a" + chr(cp) + "b").splitlines()) != 1]
+    special_ws = [cp for cp in valid_cp if chr(cp).isspace()]
+    sample = [rng.randrange(0, 0x10000) for _ in range(N(400))] + [rng.randrange(0x10000, 0x110000) for _ in range(N(40))]
+    sample = [cp for cp in sample if not 0xD800 <= cp < 0xE000]
+    near = {cp + d for cp in special_break + special_ws for d in (-1, 0, 1)}
+    cps = sorted((set(range(0x100)) | near | set(sample) | {0xFEFF, 0x200B, 0x180E, 0xE000, 0x10000, 0x1F600, 0x10FFFF})
+                 - set(range(0xD800, 0xE000)) - {-1, 0x110000})
+    for cp in cps:
         s = "a" + chr(cp) + "b"
-        exp = s.splitlines()
-        if cp < 0x3100 or len(exp) != 1:
-            want("splitlines-cp", "splitLines", [s], exp)
-    # 2. whitespace set: every code point that Python strips, and all code points below U+3100
-    ws = [cp for cp in range(0x110000) if not 0xD800 <= cp < 0xE000 and chr(cp).isspace()]
-    for cp in sorted(set(ws) | set(range(0, 0x3100)) | {0xFEFF, 0x200B, 0x180E, 0xE000, 0x10FFFF}):
+        want("splitlines-cp", "splitLines", [s], s.splitlines())
         s = chr(cp) + "a" + chr(cp)
         want("strip-cp", "stripWs", [s], s.strip())
         want("lstrip-cp", "lstripWs", [s], s.lstrip())
-    for i in range(300):
-        s = rand_text([" ", "\t", "\xa0", "\u2003", "a", ":", "\n", "\x1f", "\u200b", "é"], rng.randrange(0, 8))
+    count("code points swept (all special + neighbours + Latin-1 + seeded sample)", len(cps))
+    count("code points special for str.splitlines", len(special_break))
+    count("code points special for str.isspace", len(special_ws))
+    for _ in range(N(30)):
+        s = _rand_text(rng, [" ", "\t", "\xa0", "\u2003", "a", ":", "\n", "\x1f", "\u200b", "é"], rng.randrange(0, 8))
         want("strip", "stripWs", [s], s.strip())
         want("lstrip", "lstripWs", [s], s.lstrip())
-    # 3. LineDecoder.decode on arbitrary reachable-looking states
-    for i in range(3000):
-        buf = [rand_text(["a", "b", "é", ":"], rng.randrange(1, 3)) for _ in range(rng.choice([0, 0, 1, 2]))]
+    # 2. LineDecoder.decode on arbitrary states
+    for _ in range(N(300)):
+        buf = [_rand_text(rng, ["a", "b", "é", ":"], rng.randrange(1, 3)) for _ in range(rng.choice([0, 0, 1, 2]))]
         cr = rng.random() < 0.4
-        text = rand_text(TERMS + ["\r", "\n", "a", "b", "é"], rng.randrange(1, 7))
+        text = _rand_text(rng, TERMS + ["\r", "\n", "a", "b", "é"], rng.randrange(1, 7))
         d = LineDecoder()
         d.buffer = list(buf)
         d.trailing_cr = cr
         out = d.decode(text)
         want("LineDecoder.decode", "ldDecode", [buf, cr, text], {"buffer": d.buffer, "cr": d.trailing_cr, "lines": out})
-    # 4. LineDecoder over text chunk lists (decode* then flush), random text chunkings
-    for i in range(1500):
-        s = rand_text(TERMS + ["\r", "\n", "\r\n", "a", "b", "é", ""], rng.randrange(0, 12))
+    # 3. LineDecoder over text chunk lists (decode* then flush)
+    for _ in range(N(150)):
+        s = _rand_text(rng, TERMS + ["\r", "\n", "\r\n", "a", "b", "é", ""], rng.randrange(0, 12))
         k = rng.randrange(0, 5)
         cuts = sorted(rng.randrange(0, len(s) + 1) for _ in range(k)) if s else []
         pts = [0] + cuts + [len(s)]
@@ -186,53 +272,229 @@ async def main():
                 out += d.decode(c)
         out += d.flush()
         want("LineDecoder chunks", "linesOf", [chunks], out)
-        if out != s.splitlines():
-            print("NOTE real LineDecoder differs from str.splitlines on", repr(chunks), out, s.splitlines())
-    # 5. the real helpers on a real httpx.Response, every chunking of short byte strings
-    nchunkings = 0
-    for s in SHORT + [rand_text(SSE_TOK, rng.randrange(1, 5)) for _ in range(60)] + [rand_text(ND_TOK, rng.randrange(1, 4)) for _ in range(30)]:
-        b = s.encode("utf-8")
-        if len(b) > 12:
-            b = b[:12].decode("utf-8", errors="ignore").encode("utf-8")
-        for chunks in all_chunkings(b):
-            nchunkings += 1
-            await stream_case("exh", chunks)
-    # 6. … and random chunkings of long streams
-    for i in range(1200):
-        toks = SSE_TOK if i % 3 else ND_TOK
-        b = rand_text(toks, rng.randrange(3, 40)).encode("utf-8")
-        for _ in range(3):
-            nchunkings += 1
-            await stream_case("rnd", random_chunking(b))
-    # 7. parseEvent on line lists directly (lines never contain line breaks in practice, but the function is total)
-    for i in range(1500):
-        lines = [rand_text(SSE_TOK[:24] + ["data:", "event:", "id:", ":"], rng.randrange(0, 5)) for _ in range(rng.randrange(0, 6))]
-        want("_parse_sse_event", "parseEvent", [lines], ev(sh._parse_sse_event(lines)))
+    # 4. the real helpers on a real httpx.Response
+    seen = set()
+    nontrivial = set()
+    samples = []
 
-    # resolve ndjson expectations: compare json.loads of the model's lines with the real items
-    inp_idx = {idx for idx, _, _ in ndjson_pending}
-    # run the driver once for everything; ndjson cases are post-processed
-    inp = "".join(json.dumps(req, ensure_ascii=True) + "\n" for _, req, _ in cases)
-    out = subprocess.run([DRIVER], input=inp.encode(), stdout=subprocess.PIPE, check=True).stdout.decode()
-    replies = out.split("\n")
-    if replies and replies[-1] == "":
-        replies.pop()
-    assert len(replies) == len(cases), (len(replies), len(cases))
-    nd_real = {idx: nd for idx, _, nd in ndjson_pending}
-    bad = 0
-    for idx, ((label, req, exp), rep) in enumerate(zip(cases, replies)):
-        got = json.loads(rep)
-        if idx in inp_idx:
-            exp = nd_real[idx]
-            got = model_ndjson_view(got) if isinstance(got, list) else got
+    async def stream_case(kind, b, chunks):
+        key = (b, tuple(chunks))
+        if key in seen:
+            return
+        seen.add(key)
+        feats = _features(b, chunks) if len(chunks) >= 2 else set()
+        count("stream cases: " + kind)
+        if any(len(c) == 0 for c in chunks):
+            count("with an empty chunk")
+        for f in feats:
+            count(f)
+        if feats:
+            nontrivial.add(key)
+        real = await _real_all(chunks)
+        bl = [list(c) for c in chunks]
+        label = kind
+        want(label + "/aiter_lines", "linesOfBytes", [bl], real["lines"])
+        want(label + "/iter_sse", "sseOfBytes", [bl], real["sse"])
+        want(label + "/iter_sse_events_text", "sseTextOfBytes", [bl], real["text"])
+        want(label + "/iter_ndjson", "ndjsonOfBytes", [bl], real["ndjson"], "ndjson")
+        texts, pending = _text_chunks(chunks)
+        want(label + "/utf8Chunks", "utf8Chunks", [bl], {"texts": texts, "pending": pending})
+        want(label + "/linesOf", "linesOf", [texts], real["lines"])
+        want(label + "/iterSSE", "iterSSE", [real["lines"]], real["sse"])
+        want(label + "/sseEventsText", "sseEventsText", [texts], real["text"])
+        if feats and len(samples) < 6 and len(feats) >= 2 and rng.random() < 0.02:
+            samples.append({"chunks_hex": [c.hex() for c in chunks], "features": sorted(feats), "iter_sse": real["sse"],
+                            "iter_ndjson": real["ndjson"]})
+
+    short = [s.encode("utf-8") for s in SHORT]
+    short += [_rand_text(rng, SSE_TOK, rng.randrange(1, 5)).encode("utf-8") for _ in range(N(6))]
+    short += [_rand_text(rng, ND_TOK, rng.randrange(1, 4)).encode("utf-8") for _ in range(N(3))]
+    for b in short:
+        b = _cap(b)
+        for chunks in _all_chunkings(b):
+            await stream_case("exhaustive", b, chunks)
+    longs = [s.encode("utf-8") for s in LONG]
+    for i in range(N(120)):
+        longs.append(_rand_text(rng, SSE_TOK if i % 3 else ND_TOK, rng.randrange(3, 40)).encode("utf-8"))
+    for b in longs:
+        await stream_case("random", b, [b])
+        for _ in range(3):
+            await stream_case("random", b, _random_chunking(rng, b))
+    # 5. _parse_sse_event on line lists directly
+    for _ in range(N(150)):
+        lines = [_rand_text(rng, SSE_TOK[:24] + ["data:", "event:", "id:", ":"], rng.randrange(0, 5))
+                 for _ in range(rng.randrange(0, 6))]
+        want("_parse_sse_event", "parseEvent", [lines], _ev(sh._parse_sse_event(lines)))
+
+    replies = _drive(driver, [req for _, req, _, _ in cases])
+    disagreements = []
+    nbad = 0
+    for (label, req, exp, post), got in zip(cases, replies):
+        if post == "ndjson":
+            got = _ndjson_view(got)
         if got != exp:
-            bad += 1
-            if bad <= 40:
-                print(f"DISAGREE [{label}] {json.dumps(req, ensure_ascii=True)}\n   model: {got!r}\n   real : {exp!r}")
-    print(f"{len(cases)} comparisons, {nchunkings} chunked streams through real httpx.Response")
-    print(f"{bad} disagreements")
-    return bad
+            nbad += 1
+            if len(disagreements) < 50:
+                disagreements.append({"label": label, "request": req, "model": got, "impl": exp})
+    for k in ("splitlines", "LineDecoder", "_parse_sse_event"):
+        count("comparisons: " + k, sum(1 for c in cases if c[0].startswith(k)))
+    count("distinct (stream, chunking) cases", len(seen))
+    if len(samples) < 3:
+        for key in sorted(nontrivial)[:3]:
+            samples.append({"chunks_hex": [c.hex() for c in key[1]], "features": sorted(_features(key[0], list(key[1])))})
+    return {
+        "comparisons": len(cases),
+        "disagreements": disagreements,
+        "n_disagreements": nbad,
+        "nontrivial": len(nontrivial),
+        "rule": ("Streams: 30 hand-picked short streams + seeded random token streams (SSE and NDJSON alphabets with \\n, \\r, "
+                 "\\r\\n, ':', ' ', 'data', é, 漢, U+2028, U+0085, emoji, empty data lines, comments), capped at 12 bytes, EVERY "
+                 "subset of split points; 5 hand-picked + seeded random long streams with 3 seeded random chunkings each (empty "
+                 "chunks allowed). Each (stream, chunking) goes through a real httpx.Response(AsyncByteStream) into iter_sse, "
+                 "iter_sse_events_text, iter_ndjson, aiter_lines and into the Lean model at byte and text level. Plus "
+                 "str.splitlines / strip / lstrip (all special code points, neighbours, Latin-1, seeded sample), "
+                 "LineDecoder.decode on arbitrary states, LineDecoder on text chunk lists, _parse_sse_event. "
+                 "Non-trivial = distinct (stream, chunking) with >= 2 chunks and a split point strictly inside the stream that "
+                 "falls inside a multi-byte character, between \\r and \\n, or inside an event (the prefix before the split ends "
+                 "in a block of non-empty lines not yet closed by a blank line)."),
+        "samples": samples[:6],
+        "distribution": dist,
+    }
+
+
+# ---------------------------------------------------------------- oracle (no Lean)
+def _reference(b: bytes):
+    """Tiny independent reference for the unsplit stream: (events, texts)."""
+    lines = b.decode("utf-8", errors="replace").splitlines()
+    groups, cur = [], []
+    for l in lines + [""]:  # the final unterminated block is delivered too
+        if l == "":
+            if cur:
+                groups.append(cur)
+            cur = []
+        else:
+            cur.append(l)
+    events = []
+    for g in groups:
+        g = [l for l in g if not l.startswith(":")]  # comments ignored
+
+        def vals(name):
+            return [l[len(name) + 1:].lstrip() for l in g if l.startswith(name + ":")]
+
+        ev, ids = vals("event"), vals("id")
+        events.append({"data": "\n".join(vals("data")), "event": ev[-1] if ev else None, "id": ids[-1] if ids else None})
+    return events, [e["data"] for e in events if e["data"]]
+
+
+def _strip_retry(evs):
+    return [{k: v for k, v in e.items() if k != "retry"} for e in evs]
+
+
+async def _oracle_case(chunks, unsplit_cache=None):
+    """Failures of one (stream, chunking) case."""
+    b = b"".join(chunks)
+    fails = []
+    case = {"chunks_hex": [c.hex() for c in chunks]}
+    base = unsplit_cache.get(b) if unsplit_cache is not None else None
+    if base is None:
+        base = await _real_all([b], retry=True, with_bytes=True)
+        if unsplit_cache is not None:
+            unsplit_cache[b] = base
+    got = await _real_all(chunks, retry=True, with_bytes=True)
+    for k in ("sse", "text", "ndjson", "bytes_hex"):
+        exp = base[k] if k != "bytes_hex" else b.hex()
+        if got[k] != exp:
+            fails.append({"class": "chunking-dependent", "case": case, "observed": {k: got[k]}, "expected": {k: exp}})
+    return fails, base
+
+
+def _spec_failures(b: bytes, base):
+    fails = []
+    case = {"chunks_hex": [b.hex()]}
+    events, texts = _reference(b)
+    if _strip_retry(base["sse"]) != events:
+        fails.append({"class": "sse-spec", "case": case, "observed": {"sse": _strip_retry(base["sse"])}, "expected": {"sse": events}})
+    if base["text"] != texts:
+        fails.append({"class": "sse-spec", "case": case, "observed": {"text": base["text"]}, "expected": {"text": texts}})
+    return fails
+
+
+def oracle(seed: int, scale: float) -> dict:
+    return asyncio.run(_oracle(seed, scale))
+
+
+async def _oracle(seed, scale):
+    rng = random.Random(seed * 7919 + 18)
+
+    def N(base):
+        return max(1, int(round(base * scale)))
+
+    streams = []  # (bytes, iterable of chunkings)
+    for s in SHORT:
+        b = _cap(s.encode("utf-8"))
+        streams.append((b, list(_sampled_chunkings(rng, b, max(512, N(4096))))))
+    for i in range(N(150)):
+        b = _cap(_rand_text(rng, SSE_TOK if i % 3 else ND_TOK, rng.randrange(1, 5)).encode("utf-8"))
+        streams.append((b, list(_sampled_chunkings(rng, b, max(32, N(96))))))
+    longs = [s.encode("utf-8") for s in LONG]
+    for i in range(N(600)):
+        longs.append(_rand_text(rng, SSE_TOK if i % 3 else ND_TOK, rng.randrange(3, 40)).encode("utf-8"))
+    for b in longs:
+        chs = [[bytes([x]) for x in b]] + [_random_chunking(rng, b) for _ in range(5)]
+        streams.append((b, chs))
+    failures = []
+    evaluations = 0
+    cache = {}
+    spec_done = set()
+    per_class = {"chunking-dependent": 0, "sse-spec": 0}
+    for b, chunkings in streams:
+        for chunks in chunkings:
+            fails, base = await _oracle_case(chunks, cache)
+            evaluations += 1
+            if b not in spec_done:
+                spec_done.add(b)
+                fails = fails + _spec_failures(b, base)
+                evaluations += 1
+            for f in fails:
+                per_class[f["class"]] += 1
+                if len(failures) < 200:
+                    failures.append(f)
+    return {"evaluations": evaluations, "failures": failures, "failures_per_class": per_class,
+            "streams": len(spec_done)}
+
+
+def replay(case) -> bool:
+    chunks = [bytes.fromhex(h) for h in case["chunks_hex"]]
+
+    async def go():
+        fails, base = await _oracle_case(chunks)
+        return bool(fails or _spec_failures(b"".join(chunks), base))
+
+    return asyncio.run(go())
+
+
+# ---------------------------------------------------------------- CLI
+def main(argv):
+    driver = argv[1] if len(argv) > 1 else DEFAULT_DRIVER
+    scale = float(os.environ.get("CORR_SCALE", "1.0"))
+    seed = int(os.environ.get("CORR_SEED", "1818"))
+    t0 = time.time()
+    r = run(seed, scale, driver)
+    t1 = time.time()
+    for d in r["disagreements"][:20]:
+        print(f"DISAGREE [{d['label']}] {json.dumps(d['request'], ensure_ascii=True)}\n   model: {d['model']!r}\n   impl : {d['impl']!r}")
+    print(f"run: {r['comparisons']} comparisons, {r['nontrivial']} non-trivial (stream, chunking) cases, {t1 - t0:.1f}s")
+    for k, v in sorted(r["distribution"].items()):
+        print(f"   {k}: {v}")
+    print(f"{r['n_disagreements']} disagreements")
+    o = oracle(seed, scale)
+    t2 = time.time()
+    print(f"oracle: {o['evaluations']} evaluations on {o['streams']} streams, {t2 - t1:.1f}s, failures per class: "
+          + ", ".join(f"{k}={v}" for k, v in sorted(o["failures_per_class"].items())))
+    for f in o["failures"][:10]:
+        print("   ", json.dumps(f, ensure_ascii=True))
+    return 1 if (r["n_disagreements"] or o["failures"]) else 0
 
 
 if __name__ == "__main__":
-    sys.exit(1 if asyncio.run(main()) else 0)
+    sys.exit(main(sys.argv))
